@@ -21,6 +21,22 @@ CLAIMED = {
          "extraction from old handles is covered by C06 runs; sampling of recorded pairs (<= 400 per run)"),
  "C17": ("thr", "7 C17", "1-4 real threads under a baton scheduler that decides every context switch from an explicit schedule; programs of fresh / numeric / named with adversarial names / print-then-parse; per-thread slot-table model (fresh is new, names functional and injective, print-parse identity) and comparison of each thread's observations with the same program run alone",
          "per-thread model M_slot; panics 'fresh slot counter exhausted' are legitimate (u32 counter); sampling"),
+ "C03": ("rw", "7 C03", "seeded start terms over LA (arithmetic mod p in {3,5,7} with sum and let binders), 1-6 iterations of apply_rewrites with seeded subsets of 27 model-valid rules (validated against M_field at start-up), both substitution methods, constant-folding modify hook, probes from inside appliers and Analysis::make; after every iteration every e-node of every class (<= 3 slots) is evaluated against its class table under all environments and two assignments of its redundant slots, every inserted term is evaluated directly",
+         "M_field evaluator and table construction (sim/src/oracle/field.rs); classes with more than 3 slots or without a finite term are not evaluated; sampling"),
+ "C04": ("rw", "7 C04", "seeded left/right patterns over LS, a planted instance (literal, only up to equality via a balanced union, or with a symmetric child), optional auxiliary rule that merges the matched class away inside the same call, rule built with the crate's Rewrite::new in half of the runs; after one apply_rewrites the right instance must be represented and equal to the left instance",
+         "scope as in the statement (bound slots bound once and not used free; e-graphs with a redundant slot are skipped and counted); additionally the right side introduces no free slot that the left side lacks (such a slot is quantified independently of slots hidden in variable bindings); sampling"),
+ "C05": ("rw", "7 C05", "seeded sess histories, then patterns abstracted from the history's terms (repeated variables, binders, two slots identified non-injectively) and multi-patterns; every returned substitution is validated by bottom-up lookup (plus eq per equation for multi-patterns); fingerprint unchanged by matching",
+         "multi-patterns are built through the crate's MultiPattern::parse (its fields are private); sampling"),
+ "C06": ("sess", "7 C06", "seeded long histories (cyclic classes, redundant slots, symmetric classes), three strictly monotone cost functions; every live class with a finite term is extracted under the identity, a renamed and an own-slot-permuting invocation; membership by lookup_rec_expr + eq, cost recomputed on the term, minimality against value iteration M_cost, free slots of the result",
+         "M_cost value iteration over enodes(); classes without a finite term are out of scope; sampling"),
+ "C07": ("expl", "7 C07", "explanations build: seeded histories with add_syn_expr / union_justified; for sampled equal pairs under all relative renamings explain_equivalence must return and the proof DAG is re-checked node by node on terms by the independent checker M_proof; explicit leaves must be asserted equation instances with their justification; the conclusion must be the queried pair",
+         "M_proof reads proofs only through ProvenEqRaw::proof/equ and get_syn_expr; rule applications as proof leaves are not generated (unions only); sampling"),
+ "C14": ("rw", "7 C14", "seeded LA histories of insertions, raw unions (runs without modify) and rewrite iterations with the simulator's analysis (min size, min depth, constant mod p with modify hook); after every operation every live class's datum is recomputed as the join of make over its e-nodes, size equals value-iteration min cost, constants equal the class's model table, equal invocations share one datum",
+         "in runs with raw (not model-valid) unions the constant component is excluded (make is not monotone once two constants are joined); sampling"),
+ "C15": ("rw", "7 C15", "Runner::run, run_eqsat, bare apply_rewrites loops and a symmetry-growth loop under seeded iteration/node/time limits, a simulated clock (stalled, auto-step per read, jumps inside searchers and between iterations) and a hook failing at a seeded iteration; truth table of the stop reason in the final state (strict for Runner, as coded >= for run_eqsat), one more application after Saturated changes nothing, apply_rewrites == false implies an unchanged independent fingerprint (no use of progress()), iteration bound, report node count",
+         "the clock seam replaces std::time::Instant in guard-on builds; no liveness claim in time, only in iterations; sampling"),
+ "C20": ("thr", "7 C20", "2-3 replica threads replay one history step by step under the baton scheduler next to 0-3 noise threads (own e-graphs, symbol interning, allocation); transcripts (handles, class ids, slot names, e-node listing order, match lists, extracted terms, explanations) must be identical among replicas, to a solo replay and, for a sixth of the runs, to a replay in a child process with another interning order; run in the guard-off build (shipped hasher), the guard-on build and the explanations build; an outcome that differs between two executions of the same run is itself a violation",
+         "EGraph::dump output (stdout) is not captured; the open known finding on Symbol interning order is matched only for runs with Symbol payloads in the cross-process clause; sampling"),
 }
 NOT_BUILT = {}
 NOT_APPLICABLE = {
@@ -61,9 +77,11 @@ def main():
             "add_only": True,
         },
         "engines": [
-            {"name": "thr", "path": "sim/src/sched.rs", "serves_properties": ["C17"], "kind_free_text": "real OS threads parked and released one step at a time by a baton scheduler that follows the explicit schedule of the run"},
+            {"name": "rw", "path": "sim/src/checks/rw.rs", "serves_properties": ["C03", "C04", "C05", "C08", "C11", "C14", "C15"], "kind_free_text": "real rewriting (apply_rewrites, Runner, run_eqsat) over the simulator's languages with simulator-owned searchers, appliers, conditions, analysis and hooks as injection seams"},
+            {"name": "expl", "path": "sim/src/checks/explain.rs", "serves_properties": ["C07"], "kind_free_text": "explanations build; independent proof checker on terms"},
+            {"name": "thr", "path": "sim/src/sched.rs", "serves_properties": ["C17", "C20"], "kind_free_text": "real OS threads parked and released one step at a time by a baton scheduler that follows the explicit schedule of the run"},
             {"name": "grp", "path": "sim/src/checks/group.rs", "serves_properties": ["C10"], "kind_free_text": "direct exercise of the crate-private permutation group through the cfg-guarded VGroup wrapper"},
-            {"name": "sess", "path": "sim/src/sess.rs", "serves_properties": ["C01", "C02", "C08", "C09", "C11", "C12", "C13"], "kind_free_text": "one real EGraph driven by an explicit trace in a fresh thread; hash order, fresh stride, buggify, probes injected through cfg-guarded seams"},
+            {"name": "sess", "path": "sim/src/sess.rs", "serves_properties": ["C01", "C02", "C06", "C08", "C09", "C11", "C12", "C13"], "kind_free_text": "one real EGraph driven by an explicit trace in a fresh thread; hash order, fresh stride, buggify, probes injected through cfg-guarded seams"},
         ],
         "checks": checks,
         "not_applicable": sorted(na, key=lambda x: x["property_id"]),
